@@ -260,9 +260,42 @@ class spmatrix:
     def dot(self, other):
         return self.__matmul__(other)
 
+    def _elementwise(self, other, f):
+        """self (+|-) other for two sparse matrices: entries over the union of the stored positions, in csr form with sorted
+        indices; cells that cancel to a literal zero are dropped (scipy's binop kernels drop zeros)"""
+        if not isinstance(other, spmatrix):
+            raise core.Unsupported("sparse (+|-) non-sparse")
+        if self._shape != other._shape:
+            raise ValueError("inconsistent shapes")
+        acc = {}
+        for m_, sign in ((self, None), (other, f)):
+            c = m_.tocoo()
+            for r, cc, v in zip(c.row, c.col, c.data):
+                k = (int(r), int(cc))
+                if sign is None:
+                    acc[k] = acc[k] + v if k in acc else v
+                else:
+                    acc[k] = sign(acc.get(k, 0.0), v)
+        data, indices, indptr = [], [], [0]
+        for i in range(self._shape[0]):
+            for (r, j) in sorted(k for k in acc if k[0] == i):
+                v = acc[(r, j)]
+                if core.is_sym(v) or v != 0:
+                    data.append(v)
+                    indices.append(j)
+            indptr.append(len(data))
+        out = csr_matrix((data, indices, indptr), shape=self._shape)
+        return out if self.format != 'csc' or other.format != 'csc' else out.tocsc()
+
+    def __add__(self, other):
+        return self._elementwise(other, lambda a, b: a + b)
+
+    def __sub__(self, other):
+        return self._elementwise(other, lambda a, b: a - b)
+
     def _not_modelled(self, *a, **k):
         raise core.Unsupported("sparse-matrix operation outside the model")
-    __add__ = __radd__ = __sub__ = __rsub__ = __pow__ = __rmatmul__ = multiply = maximum = minimum = power = _not_modelled
+    __radd__ = __rsub__ = __pow__ = __rmatmul__ = multiply = maximum = minimum = power = _not_modelled
 
     def __getattr__(self, name):
         # what scipy's matrix of the same format provides but the model does not is "not encodable", never a library error
